@@ -83,8 +83,8 @@ seeded changes and which check catches which in §11.
   trip of C15/C16, agreement of `fill_inplace` with `wrap`) — C09's and C08's relational clauses are now theorems over
   `wrap`'s functional postcondition (U11) —, the real
   tables of `unicode-linebreak` / `unicode-width` / `smawk` behind the assumed shapes.
-* **Robustness of the machinery** (§8, §11): 148 seeded property-breaking changes that compile and pass the upstream suite
-  (5 reverted fixes + 143 from independent sub-agents in nine waves) are all reported; 25 + 12 behaviour-preserving refactors
+* **Robustness of the machinery** (§8, §11): 162 seeded property-breaking changes that compile and pass the upstream suite
+  (5 reverted fixes + 157 from independent sub-agents in ten waves) are all reported; 25 + 12 behaviour-preserving refactors
   raise no alarm; every unit verifies under 8 different SMT seeds; the unchanged tree passes all 20 checks in both tiers.
 """)
 w(s1.rstrip()+"\n")
@@ -212,6 +212,34 @@ That is false for a hand-made `Word` with empty text, non-empty whitespace and a
 `break_apart` yields nothing and the whitespace is lost. The restated contract now requires non-empty text; U15 proves
 exactly that (`vx_break_apart_collect`); `break_words` carries the precondition "cached widths are display widths" (true of
 every `Word` the library makes: proved for `Word::from`, `split_words` and `break_apart`, and threaded through U11).
+
+### 2.9 Relational clauses as theorems over a functional postcondition (C09, C08)
+
+A contract speaks about one call; "the lines after `wrap(a)` do not depend on `a`" compares calls. Where a function can be
+given a postcondition of the form *result == F(arguments)* for a spec function `F`, such a clause becomes a theorem about `F`
+— proved once, for all inputs, by the same verifier. U11 does this for `wrap`:
+
+* each restated callee contract of the word pipeline also says `r == f(args)` for an uninterpreted `f` (`fw_spec`, `sw_spec`,
+  `bw_spec`, `wf_spec`, `wa_spec`: find, split, force-break, `Word::from`, line breaker) — determinism of safe, state-free
+  Rust, assumption A17; nothing is said about what `f` is;
+* `wrap_single_line_slow_path` is proved to append `para_slow(paragraph, options, first)`: the runs `wa_spec` returns for
+  `para_words` (the three stages composed exactly as the code composes them, the zero-width sentinel included), rendered as
+  `indent ++ slice ++ penalty`; `wrap_single_line` appends `para_fn` (the shortcut's `[trim(paragraph)]` or `para_slow`);
+  `wrap` returns `wrap_fn(split(text, E), options)`, the left fold of `para_fn` with "first" meaning "no line yet". A second
+  track (`wrap_fn_b`) does the same for the `Cow` variant of every line. The heavy steps sit in small lemmas with explicit
+  parameters (`para_words_link`, `para_slow_link`), which brought the slow path's query from 140 M down to 22 M rlimit units;
+* `str::split` is modelled as the left-to-right scan for the separator (`split_scan`); that a separator-free text is one piece
+  and that, for the unbordered separators `"\n"` and `"\r\n"`, the pieces of `a ++ E ++ b` are those of `a` followed by
+  those of `b` are proved for the model (`split_no_sep`, `split_concat`), and the model is checked against the real
+  `str::split` by the bounded contract `A4.std_models`;
+* theorems: `c09_paragraphs_independent` (prefix, independence, `wrap(b)` for empty indents, never fewer lines than
+  paragraphs), `c09_line_ending_equivariance`, `wrap_fn_is_indent_plus_rest` + `c08_wrap_rest_depends_on_indent_widths_only`.
+  Each was probed for vacuity (an appended `assert(false)` fails) and for need of its hypotheses (without "same emptiness of
+  the indents" the C08 theorem fails — the sentinel word depends on it; without "unbordered" `split_concat` fails).
+
+The same device does not reach C14 (idempotence of `fill`), C13, C15/C16's round trips or C17's agreement with `wrap`: they
+compare runs on *different texts* whose relation goes through what the word stages compute, not just through how `wrap`
+composes them.
 """)
 w("## 3. Trusted base (global; each evidence file lists what it used)\n")
 for k,v in props.TRUSTED.items():
@@ -357,13 +385,14 @@ the property states.
 
 ## 11. Seeded changes and what catches them
 
-`seeded/` holds 148 changes that compile, pass the upstream suite in both feature sets, and break a property: the 5
-reverted fixes and 143 produced by independent sub-agents given **only** the property text and a scratch worktree (wave 1–2:
+`seeded/` holds 162 changes that compile, pass the upstream suite in both feature sets, and break a property: the 5
+reverted fixes and 157 produced by independent sub-agents given **only** the property text and a scratch worktree (wave 1–2:
 two per property; wave 3: cooperating edits / indirect helpers / wrong fast paths; wave 4–5: changes that need something
 specific to manifest, avoiding the most obvious single-token edits; wave 6: with a hint which file to change; wave 7: with the
 ideas that earlier waves over-used forbidden (ASCII width shortcuts, `trim_end()`, byte lengths of indents, early return in `refill`);
 wave 8: changes that only show with a non-default option value or feature set — all 13 reported without any strengthening;
-wave 9: 15 more with a longer list of forbidden ideas — again all reported as the checks stood). Each was confirmed by `tools/seedverify.sh` (patch applies; suite passes in both feature sets;
+wave 9: 15 more with a longer list of forbidden ideas — again all reported as the checks stood;
+wave 10: 14 changes *disguised as refactors* — renamed locals, restructured loops, extracted helpers, with one of the "equivalent" rewrites not equivalent — all reported as the checks stood: where the restructuring leaves the Verus unit undecided, the bounded contracts of the same property decide). Each was confirmed by `tools/seedverify.sh` (patch applies; suite passes in both feature sets;
 its demonstration fails with the patch and passes without). `tools/seedtest.py` applies each to `/repo`, runs the checks
 of the properties it breaks, and undoes it; `seeded/RESULTS.json` is its output and **`seeded/RESULTS.md` the full table**
 (seed, property, files changed, Verus obligations failed, BEC contracts failed, undecided units, verdict).
